@@ -30,6 +30,20 @@ STYLES = {
        "updated on ONE of several code paths that reach the same state. Do NOT add in-memory caches or memoisation and "
        "do not touch genesis import/export code (earlier engineers did). The effect should ideally appear only some "
        "operations or blocks after the faulty step."),
+ '7': ("Prefer one of these styles, whichever fits, and prefer functions and modules listed above that the earlier "
+       "engineers did NOT touch: (a) a change in a module OTHER than the one the property names, which breaks the "
+       "property through something both share (a keeper method another module calls, a hook, a bank module account, a "
+       "network property, a permission or role, an identity record, a token rate); (b) the same effect reached through an "
+       "uncommon entry point (an x/ethereum relayed message, an x/recovery rotation or recovery-token operation, a layer2 "
+       "transfer / execution, a custody-wrapped send, the content of a proposal, an upgrade plan) whose handling now "
+       "differs from the ordinary entry point; (c) state left behind by a deletion, a re-creation under the same name, an "
+       "expiry or a queue removal (an index, a counter, a reverse lookup, a pending item that still fires); (d) the order "
+       "of steps inside one function: a write before the check that may refuse, a check made on a copy read before an "
+       "update, a value computed before and used after a state change; (e) a comparison on times, byte keys, strings or "
+       "decimals that differs only at equality or only for a value of a different length / sign / precision; (f) a "
+       "default: an unset, empty or zero field now treated like a meaningful value or the other way round. Do NOT add "
+       "in-memory caches or memoisation, do not touch genesis import/export code and do not touch app/ante (earlier "
+       "engineers did). The effect should ideally appear only some operations or blocks after the faulty step."),
  '5': ("Prefer one of these styles, whichever fits: (a) arithmetic: a changed rounding direction, order of "
        "multiplication and division, integer width or sign conversion that only matters for particular magnitudes; "
        "(b) iteration: an iterator bound, prefix or pagination change that only matters when a second object with a "
